@@ -135,13 +135,14 @@ OtherNeighbour(x, p, text) ==
     LET c == CmpHalf(DecExpand(x.limbs, p).rest)
     IN \/ c = "lt" /\ text \in TextsOf(x.neg, Up(x, p))
        \/ c = "gt" /\ text \in TextsOf(x.neg, Down(x, p))
-\* how close the cut-off part is to one half without being one half (distance below 4096^-3 = 2^-36)
+\* how close the cut-off part is to one half without being one half: distance below 4096^-2 = 2^-24,
+\* the zone in which a product of magnitude up to 10^9 rounded to 53 bits can land on the midpoint
 NearMidpoint(x, p) ==
     LET r == DecExpand(x.limbs, p).rest
-        pad == r \o <<0, 0, 0>>
+        pad == r \o <<0, 0>>
     IN /\ CmpHalf(r) # "eq"
-       /\ \/ pad[1] = 2048 /\ pad[2] = 0 /\ pad[3] = 0
-          \/ pad[1] = 2047 /\ pad[2] = 4095 /\ pad[3] = 4095
+       /\ \/ pad[1] = 2048 /\ pad[2] = 0
+          \/ pad[1] = 2047 /\ pad[2] = 4095
 
 \* a decimal numeral [neg, wh, wl, f, d]: value (wh * 100000 + wl) + f / 10^d; its text
 DecText(t) == (IF t.neg THEN "-" ELSE "") \o Join(IF t.wh = 0 THEN NatDigits(t.wl)
@@ -179,9 +180,10 @@ WithinHalfUnit(r, t) ==
 NearestDouble(r, lo, hi, t) ==
     LET sr == Scaled(r, t)  sl == Scaled(lo, t)  sh == Scaled(hi, t)
     IN sr.ok /\ sl.ok /\ sh.ok /\ (IF SignOf(sr) <= 0 THEN SumSign(sr, sh) >= 0 ELSE SumSign(sr, sl) <= 0)
-\* the numeral lies between the neighbours of r: r is at most one double away from the nearest one
-Adjacent(lo, hi, t) ==
-    LET sl == Scaled(lo, t)  sh == Scaled(hi, t) IN sl.ok /\ sh.ok /\ SignOf(sl) <= 0 /\ SignOf(sh) >= 0
+\* the numeral lies between the doubles a <= b (in magnitude): with a, b the 8th neighbours of r this says
+\* that r is only a few units in the last place away from the numeral
+Between(a, b, t) ==
+    LET sa == Scaled(a, t)  sb == Scaled(b, t) IN sa.ok /\ sb.ok /\ SignOf(sa) <= 0 /\ SignOf(sb) >= 0
 \* fractions compared: a > b
 LimbsGT(a, b) ==
     LET n == IF Len(a) > Len(b) THEN Len(a) ELSE Len(b)
